@@ -135,6 +135,19 @@ def cases(rng, tier):
         for i in range(D - 1, -1, -1):
             body = f"{gen.enc(i)} ({body} ㅎ) ㅎㄴ"
         yield Case(program=body, tag='trailer-frame', nontrivial=True, timeout=20)
+    # (5) module files and directories named by any spelling of a number (0–3 padding pairs; zero in both parities),
+    #     imported by any spelling of the literal
+    SYL = dict(zip(JAMO, "가나다라마바사자"))
+    for n_ in [0, 1, 5, -8, 9, 64, -1]:
+        for pads in range(0, 4):
+            for zl in ([1, 2, 3, 4, 5] if n_ == 0 else [None]):
+                word = ("ㄱ" * zl) if n_ == 0 else gen.enc(n_) + "ㄱ" * (2 * pads)
+                if n_ == 0 and pads:
+                    continue
+                fname = "".join(SYL[c] for c in word)
+                lit_sp = rng.choice([gen.enc(n_), gen.enc(n_) + "ㄱㄱ", word])
+                yield Case(program=f"{lit_sp} ㅂㅎㄴ", fs={fname + ".pbhhg": "ㄷㅈ".encode()}, tag='spelling-module-file')
+                yield Case(program=f"{lit_sp} ㄴ ㅂㅎㄷ", fs={fname + "/나.pbhhg": "ㄷㅈ".encode()}, tag='spelling-module-dir')
     # file mode / command spellings on a real scratch file
     for k in (1, 2):
         P = lambda w: pad(w, k)
@@ -157,7 +170,7 @@ SPEC = {
     'rule': 'parse_number / encode_number (checked in batches: one case = 512 integers or words): exhaustive |n| ≤ 2^11 (quick) / 2^20 (thorough), all digit words up to '
             'length 4 / 7, 200 random integers up to 2^4096, powers of 8 ± 1; programs in which one literal is replaced by '
             'a zero-padded spelling in each role (value, arity, nesting index, function reference, built-in name, module '
-            'path, file mode / command, list index) must behave identically; every spelling of zero of either parity (ㄱㄱ … ㄱ×7 / ×13) in every role where a zero can stand (value, closure / built-in arity, argument position, nesting index, function reference, built-in name, list index, module path, file command); every trailer word of ≤ 3 digits as an arity with that many arguments present and of ≤ 2 digits as a frame number inside 66 nested functions; non-trivial = multi-digit word / |n| > 7',
+            'path, file mode / command, list index) must behave identically; every spelling of zero of either parity (ㄱㄱ … ㄱ×7 / ×13) in every role where a zero can stand (value, closure / built-in arity, argument position, nesting index, function reference, built-in name, list index, module path, file command); module files / directories named by padded spellings (0–3 pairs, zero of length 1–5) imported by literals; every trailer word of ≤ 3 digits as an arity with that many arguments present and of ≤ 2 digits as a frame number inside 66 nested functions; non-trivial = multi-digit word / |n| > 7',
     'trusted': ["the harness's own reading of docs/spec.md:31-44 (py_parse) used as the monitor's oracle"],
     'assumptions': [],
 }
